@@ -393,6 +393,10 @@ def restart_history_cases(r, n):
         need = fee_needed(cfg["policy"], amount)
         start = rr.choice([0, 1000, 100000])
         dated = rr.choice([0, start, start + 1000, start + 4000, start + mpp, start + 10 * mpp, max(0, start - mpp // 2 // 1000 * 1000), max(0, start - 1000)])
+        if i % 4 == 3:
+            # ages that are not whole seconds, around the timeout: the record is dated in whole seconds, the clock is not
+            dated = rr.choice([0, 1000, 7000])
+            start = dated + mpp + rr.choice([-500, -1, 1, 500, 999, 1000, 1500])
         script = []
         if start: script.append({"e": "tick", "ms": start})
         script += [b.htlc(inv, need // 2, need), {"e": "drain"}]
